@@ -39,6 +39,8 @@ pub struct Knobs {
     pub special_defs: bool,
     /// INPUT targets may have a subscript that draws a random number (evaluated once per attempt)
     pub rnd_input_subscript: bool,
+    /// IF a THEN IF b THEN x ELSE y ELSE z
+    pub nested_else: bool,
 }
 
 impl Knobs {
@@ -66,6 +68,7 @@ impl Knobs {
             pure_fn_bodies: false,
             special_defs: false,
             rnd_input_subscript: false,
+            nested_else: true,
         }
         .finish(rng)
     }
@@ -500,6 +503,34 @@ impl<'a> Gen<'a> {
                 _ => {}
             }
         }
+        self.then_leaf()
+    }
+
+    /// IF <true> THEN IF b THEN x ELSE y ELSE z. Only with an outer condition that holds: when the outer
+    /// condition is false this dialect continues at the *first* ELSE of the line (it does not match
+    /// ELSEs to IFs), which is outside the documented forms — so that shape is not generated.
+    fn nested_else_if(&mut self) -> Stmt {
+        let b = self.cond();
+        let x = self.then_leaf();
+        let y = self.then_leaf();
+        let inner = Stmt::If {
+            cond: b,
+            then: Branch::Stmts(vec![x]),
+            els: Some(Branch::Stmts(vec![y])),
+        };
+        let z = self.branch_stmts(false, 2);
+        Stmt::If {
+            cond: Expr::Num(1.0 + self.rng.below(3) as f64),
+            then: Branch::Stmts(vec![inner]),
+            els: Some(Branch::Stmts(z)),
+        }
+    }
+
+    fn then_leaf(&mut self) -> Stmt {
+        if self.k.resumable_in_then_else && self.k.input && self.rng.chance(1, 6) {
+            self.inputs += 1;
+            return Stmt::Input(self.num_target());
+        }
         match self.rng.below(4) {
             0 => self.assignment(),
             1 => self.tag(),
@@ -541,6 +572,9 @@ impl<'a> Gen<'a> {
     }
 
     pub fn if_stmt(&mut self, depth: u32) -> Stmt {
+        if self.k.else_forms && self.k.nested_else && self.rng.chance(1, 12) {
+            return self.nested_else_if();
+        }
         let cond = self.cond();
         let with_else = self.k.else_forms && self.rng.chance(1, 2);
         let then = if self.rng.chance(1, 4) {
@@ -695,6 +729,10 @@ impl<'a> Gen<'a> {
             tail.push(self.simple());
         }
         tail.push(Stmt::Next(var));
+        // a statement behind the NEXT on the same line (runs once, when the loop is done)
+        if self.k.multi_stmt && self.rng.chance(1, 4) {
+            tail.push(self.simple());
+        }
         self.push_line(tail);
     }
 
@@ -899,6 +937,20 @@ impl<'a> Gen<'a> {
             self.block(0, &mut main_budget);
             if self.rng.chance(1, 3) {
                 break;
+            }
+        }
+        // a second DEF for a name that is already defined (same parameter kinds, another body): the
+        // definition executed last is the one in force
+        if !self.funcs.is_empty() && self.rng.chance(1, 8) {
+            let (name, kinds) = self.rng.pick(&self.funcs.clone());
+            if !["FNW", "FNK", "FNQ"].contains(&name.as_str()) {
+                let params: Vec<String> = kinds.iter().enumerate().map(|(i, s)| if *s { format!("{}$", ["J", "K", "Q"][i % 3]) } else { ["Y", "C", "J"][i % 3].to_string() }).collect();
+                let first_num = params.iter().find(|p| !p.ends_with('$')).cloned();
+                let body = match first_num {
+                    Some(p) => Expr::Bin(BinOp::Add, Box::new(Expr::Num(1000.0 + self.rng.below(9) as f64)), Box::new(Expr::Var(p))),
+                    None => Expr::Num(1000.0 + self.rng.below(9) as f64),
+                };
+                deferred_defs.push(Stmt::Def { name, params, body });
             }
         }
         for d in deferred_defs {
